@@ -1002,15 +1002,6 @@ class PendingFunctionDef(_PendingCompoundStmt[FunctionDef]):
                 keywords=[],
             )
 
-        if self.internal_nsp.is_method and self.node.name == "__init_subclass__":
-            # We need to add a @classmethod for __init_subclass__
-            # that's really weird, but really solves problem
-            body_expr = Call(
-                func=Name(id="classmethod", ctx=Load()),
-                args=[body_expr],
-                keywords=[],
-            )
-
         return [self.nsp.get_assign(self.node.name, body_expr)]
 
 
